@@ -45,6 +45,24 @@ sys.path.insert(0, os.path.dirname(os.path.abspath(__file__)))
 import rsitems
 from rsitems import AnchorLost
 
+
+def _find_ws(text, lit, start, end):
+    """position and length of `lit` in text[start:end]: exact match first; a multi-line anchor that is not found verbatim is looked for
+    modulo runs of white space (Rust does not care about them; a re-indented block must not lose its anchor)"""
+    pos = text.find(lit, start, end)
+    if pos >= 0:
+        return pos, len(lit)
+    if '\n' not in lit:
+        return -1, 0
+    parts = [re.escape(x) for x in lit.split()]
+    if not parts:
+        return -1, 0
+    rx = re.compile(r'\s+'.join(parts))
+    m = rx.search(text, start, end)
+    if not m:
+        return -1, 0
+    return m.start(), m.end() - m.start()
+
 REPO = os.environ.get('VERIF_REPO', '/repo')
 
 R1_ATTR = re.compile(r'^(inline|cfg|cfg_attr|derive|repr|allow|must_use|doc|deprecated|track_caller)\b')
@@ -165,6 +183,14 @@ def parse_template(text, base_dir='.'):
                     raise TemplateError('line %d: bad slice directive' % ln)
                 sec = []
                 cur['slice'] = dict(lit=m.group(1).replace('\\"', '"'), lines=sec)
+            elif kw == 'slice-until':
+                # R11 (bounded form): the slice stops in front of this statement; the //@: lines that follow are the closing expression of the
+                # sliced fn (what it hands back of the locals it computed).  Everything from that statement on is dropped and reported.
+                m = re.match(r'"((?:[^"\\]|\\.)*)"$', rest)
+                if not m or not cur.get('slice'):
+                    raise TemplateError('line %d: bad slice-until directive (needs a preceding slice)' % ln)
+                sec = []
+                cur['slice']['until'] = dict(lit=m.group(1).replace('\\"', '"'), lines=sec)
             elif kw == 'attr':
                 # verifier attribute put in front of the extracted fn (e.g. #[verifier::rlimit(200)]); never changes the fn text
                 cur['attr'] = rest
@@ -493,7 +519,7 @@ def extract(node, variant, report):
     for sub in node['subs']:
         old, new, why = sub[0], sub[1], sub[2]
         every = len(sub) > 3 and sub[3]
-        pos = text.find(old, search_from, it.end)
+        pos, plen = _find_ws(text, old, search_from, it.end)
         if pos < 0 and every == 'any':
             continue
         if pos < 0:
@@ -506,9 +532,9 @@ def extract(node, variant, report):
                 pos = text.find(old, pos + len(old), it.end)
             report['manual_rewrites'].append(dict(item=' >> '.join([node['file']] + node['path']), old=old, new=new, reason=why, occurrences=n_occ))
             continue
-        if text.find(old, pos + 1, it.end) >= 0:
+        if _find_ws(text, old, pos + 1, it.end)[0] >= 0:
             raise TemplateError('sub anchor %r ambiguous in %s' % (old, node['path']))
-        edits.append((pos, pos + len(old), new, 'MR'))
+        edits.append((pos, pos + plen, new, 'MR'))
         report['manual_rewrites'].append(dict(item=' >> '.join([node['file']] + node['path']), old=old, new=new, reason=why))
     if node.get('slice'):
         # R11: the statements of the fn body from the anchor to the end become the body of a fn whose parameters are the locals
@@ -524,10 +550,21 @@ def extract(node, variant, report):
         sig = '\n'.join(_pick(h, variant) for h in sl['lines'])
         spec_txt = '\n'.join(_pick(h, variant) for h in node['spec'])
         edits = [e for e in edits if e[0] >= apos]
+        dropped = 'statements of the fn body before line %d' % src.line_of(apos)
+        if sl.get('until'):
+            upos = text.find(sl['until']['lit'], apos, it.end)
+            if upos < 0:
+                raise AnchorLost('%s: slice-until anchor %r not found in %s' % (node['file'], sl['until']['lit'], ' >> '.join(node['path'])))
+            if text.find(sl['until']['lit'], upos + 1, it.end) >= 0:
+                raise TemplateError('slice-until anchor %r ambiguous in %s' % (sl['until']['lit'], node['path']))
+            edits = [e for e in edits if e[1] <= upos]
+            closing = '\n'.join(_pick(h, variant) for h in sl['until']['lines'])
+            edits.append((upos, it.end - 1, closing + '\n', 'R11'))
+            dropped += ' and from line %d on' % src.line_of(upos)
         edits.append((it.start, apos, sig + '\n' + spec_txt + '\n{\n', 'R11'))
         rule('R11')
         report.setdefault('slices', []).append(dict(item=' >> '.join([node['file']] + node['path']), from_line=src.line_of(apos), fn_line=src.line_of(it.head),
-                                                    dropped='statements of the fn body before line %d' % src.line_of(apos)))
+                                                    dropped=dropped))
     # apply edits
     edits.sort(key=lambda e: (e[0], e[1]))
     out = []
